@@ -302,6 +302,54 @@ func VerifH_c01_readloop() {
 	vReach("both-commands-in-one-segment", k1 == 0 && k2 == n)
 }
 
+// VerifH_c01_readloop_big: an argument larger than the 8 KiB read buffer.
+// The stream length is chosen around multiples of the buffer size and cut
+// at table positions, so that a Read filling the buffer exactly occurs.
+func VerifH_c01_readloop_big() {
+	VerifSetup()
+	disp := vNewServer()
+	total := []int{8191, 8192, 8193, 16384, 8492}[vChoice("total", 5)]
+	// "*2\r\n$4\r\nECHO\r\n$<n>\r\n<n bytes>\r\n": 14 + 1+len(itoa(n))+2 + n + 2
+	n := total - 14 - 1 - 4 - 2 - 2 // n has 4 digits for these totals; 5 for 16384
+	if total == 16384 {
+		n--
+	}
+	payload := make([]byte, n)
+	for i := range payload {
+		payload[i] = 'a' + byte(i%7)
+	}
+	payload[0] = vByte("first")
+	payload[n-1] = vByte("last")
+	c1 := []string{"ECHO", string(payload)}
+	stream := refEncodeCommand(c1)
+	vAssume(len(stream) == total)
+	cut := []int{0, 300, 8192}[vChoice("cut", 3)]
+	if cut > len(stream) {
+		cut = 0
+	}
+	conn := &vConn{}
+	if cut > 0 {
+		conn.segs = append(conn.segs, stream[:cut])
+	}
+	// the kernel hands out at most one buffer-full per Read
+	for rest := stream[cut:]; len(rest) > 0; {
+		k := len(rest)
+		if k > 8192 {
+			k = 8192
+		}
+		conn.segs = append(conn.segs, rest[:k])
+		rest = rest[k:]
+	}
+	cc := &clientCxn{cxn: conn, started: time.Now(), csceCh: make(chan *clientStateEvent, 3)}
+	cc.cs = newClientState(vLane, cc, disp)
+	cmds, _ := vRunConn(cc, conn, 40)
+	vAssert("big-argument-dispatched-once", len(cmds) == 1)
+	if len(cmds) == 1 {
+		vAssert("big-argument-identical", vIsCommand(cmds[0], c1))
+		vAssert("big-argument-reply-bytes", vBytesEq(conn.written, refEncodeBulk(c1[1])))
+	}
+}
+
 func refEncodeBulk(s string) []byte {
 	out := []byte("$" + vItoa(len(s)) + "\r\n")
 	out = append(out, []byte(s)...)
